@@ -268,6 +268,7 @@ CONTROLS = [
     # ---- C06
     C('fire-parent-not-set', 'fire', ['C06', 'C18'], sub("        self._unordered_children.append(child)\n        child._parent = self\n        return child", "        self._unordered_children.append(child)\n        return child", XE), 'R-PAIR.add'),
     C('fire-revert-F5', 'fire', ['C06'], revert_commit('9774017'), 'R-PAIR.replace'),
+    C('fire-revert-F9', 'fire', ['C06'], revert_commit('09fcebd'), 'R-CONS.rehome'),
     C('fire-back-pointer-not-cleared', 'fire', ['C06'], sub("            child.parent_xsd_element.xml_elements.remove(child)\n            child.parent_xsd_element = None\n", "            child.parent_xsd_element.xml_elements.remove(child)\n", XE), 'R-PAIR.remove'),
     C('fire-foreign-writer', 'fire', ['C06'], sub("    def find_child(self, name: Union['XMLElement', str], ordered: bool = False) -> 'XMLElement':\n", "    def find_child(self, name: Union['XMLElement', str], ordered: bool = False) -> 'XMLElement':\n        self._unordered_children.sort(key=lambda ch: ch.name) if ordered else None\n", XE), 'R-OWN.children'),
     C('silent-rename-local-replace', 'silent', ['C06', 'C01', 'C10'], rename_local(XE, 'XMLElement.replace_child', 'old_child', 'replaced'), None, 'renaming a local'),
@@ -440,6 +441,7 @@ SEED_EXPECT = {
 }
 # round 2 (40 seeds, 33 caught): expectations as observed on the pinned tree; the misses are listed in DESIGN.md 11.6
 SEED_EXPECT.update({
+    'R2-C06a': ['C06'],
     'R2-C01a': ['C01'], 'R2-C01b': ['C01', 'C06', 'C11'], 'R2-C02a': ['C01', 'C06', 'C10', 'C11', 'C19'], 'R2-C03a': ['C03', 'C13', 'C20'],
     'R2-C03b': ['C13', 'C20'], 'R2-C04a': ['C13', 'C20'], 'R2-C04b': ['C05', 'C13', 'C20'], 'R2-C05a': ['C05', 'C13', 'C20'],
     'R2-C05b': ['C04', 'C05'], 'R2-C06b': ['C01', 'C06', 'C10', 'C11'], 'R2-C08a': ['C05', 'C13'], 'R2-C09a': ['C04', 'C05', 'C16'],
